@@ -2,7 +2,7 @@
    robustness is runtime behaviour and is explored by the harness, not proved).
    Only statements; each is closed by a lemma proved in theories/PagingProofs.v.
    GetRange is Pure.GetRange, regenerated from rpc/api/utils.go on every run. *)
-From ZV Require Import Prelude GoSem Paging PagingProofs RpcMsg RpcMsgProofs.
+From ZV Require Import Prelude GoSem Paging PagingProofs RpcMsg RpcMsgProofs PoWProofs Dec DecProofs JsonText JsonTextProofs.
 From ZV.gen Require Import Consts Pure.
 Open Scope Z_scope.
 
@@ -159,7 +159,96 @@ Theorem C18_rpc_null_without_replacement_refuted :
   (forall t, handle_session_nofix t [DocSingle ENull] = RpcPanic).
 Proof. split; [exact nofix_null_panics | exact nofix_single_null_panics]. Qed.
 
+(* ---- "A block returned as JSON and fed back parses to the same block with the same hash": the text form of every
+   scalar field (JsonText.v: what MarshalJSON prints, what UnmarshalJSON of nom.AccountBlock / api.AccountBlock takes),
+   compared with the real marshaller / unmarshaller field by field on every run. For every field: print then parse is the
+   identity on the field's whole range; then what else the parser takes (second text forms) and what it refuses. *)
+(* amounts ("amount": "<decimal>", every integer, also negative) *)
+Theorem C18_json_amount_roundtrip : forall z, parse_amount (print_amount z) = z.
+Proof. exact amount_roundtrip. Qed.
+(* ... second text forms: a plus sign, leading zeros (also behind a minus sign: "-0" is 0); everything that is not a
+   number (empty, a lone sign, any other character anywhere) is silently read as 0 *)
+Theorem C18_json_amount_second_text_forms :
+  (forall z, 0 <= z -> parse_amount (43 :: print_amount z) = z) /\
+  (forall k z, 0 <= z -> parse_amount (repeat 48 (S k) ++ print_amount z) = z) /\
+  (forall k z, 0 <= z -> parse_amount (45 :: repeat 48 k ++ print_amount z) = - z) /\
+  (forall s, s = [] \/ s = [45] \/ s = [43] \/ (exists c, In c (tl s) /\ is_digit c = false) \/
+             (exists c r, s = c :: r /\ is_digit c = false /\ c <> 45 /\ c <> 43) -> parse_amount s = 0).
+Proof.
+  split; [exact amount_plus|]. split; [exact amount_leading_zeros|]. split; [exact amount_negative_leading_zeros|].
+  intros s H. apply amount_garbage_is_zero. apply amount_not_a_number. exact H.
+Qed.
+
+(* uint64 fields (version, chainIdentifier, blockType, height, fusedPlasma, difficulty, basePlasma, usedPlasma) *)
+Theorem C18_json_u64_roundtrip : forall z, 0 <= z < two64 -> parse_u64_field (print_u64 z) = Some z.
+Proof. exact u64_roundtrip. Qed.
+(* ... the printed literal is the only number literal of a value; the one second text form is null (for 0) *)
+Theorem C18_json_u64_text_unique : forall s z, parse_u64_field s = Some z -> s = print_u64 z \/ (s = json_null /\ z = 0).
+Proof. exact u64_text_unique. Qed.
+Theorem C18_json_u64_refused :
+  (forall c r, parse_u64_field (48 :: c :: r) = None) /\
+  (forall s c, In c s -> is_digit c = false -> s <> json_null -> parse_u64_field s = None) /\
+  (forall z, two64 <= z -> parse_u64_field (print_u64 z) = None).
+Proof. split; [exact u64_leading_zero|]. split; [exact u64_nondigit | exact u64_out_of_range]. Qed.
+
+(* nonce (8 bytes) and hashes (32 bytes) as lower-case hex *)
+Theorem C18_json_hex_roundtrip :
+  (forall n, Forall byte n -> length n = 8%nat -> parse_nonce_nom (print_nonce n) = Some n /\ parse_nonce_api (print_nonce n) = n) /\
+  (forall h, Forall byte h -> length h = 32%nat -> parse_hash (print_hash h) = Some h).
+Proof. split; [exact nonce_roundtrip | exact hash_roundtrip]. Qed.
+(* ... second text forms: upper-case a..f, and nothing else (an accepted text is the printed one up to letter case);
+   api.AccountBlock reads every nonce text that nom.AccountBlock refuses as the zero nonce *)
+Theorem C18_json_hex_second_text_forms :
+  (forall b, Forall byte b -> hex_dec (map hex_upper (hex_enc b)) = Some b) /\
+  (forall s b, hex_dec s = Some b -> map hex_lower s = hex_enc b /\ Forall byte b) /\
+  (forall s, parse_nonce_nom s = None -> parse_nonce_api s = zero_nonce) /\
+  (forall s b, parse_nonce_nom s = Some b -> parse_nonce_api s = b).
+Proof.
+  split; [exact hex_upper_accepted|]. split; [exact hex_accepted_is_canonical_up_to_case|].
+  split; [exact nonce_api_garbage_is_zero | exact nonce_api_agrees].
+Qed.
+
+(* addresses (20 bytes, "z1...") and token standards (10 bytes, "zts1...") as bech32 *)
+Theorem C18_json_bech32_roundtrip :
+  (forall a, Forall byte a -> length a = 20%nat -> parse_address (print_address a) = Some a) /\
+  (forall a, Forall byte a -> length a = 10%nat -> parse_zts (print_zts a) = Some a).
+Proof. split; [exact address_roundtrip | exact zts_roundtrip]. Qed.
+(* ... second text forms (witness: the zero address): all upper case, the bech32m checksum, a payload one group shorter
+   when the last five bits are zero; mixed case is refused *)
+Theorem C18_json_address_second_text_forms :
+  let canon := print_address zero_address in
+  let upper := map upper_case canon in
+  let m := addr_prefix ++ [49] ++ map enc5 (to5 zero_address) ++ map enc5 (checksum bech32m_const addr_prefix (to5 zero_address)) in
+  let g31 := firstn 31 (to5 zero_address) in
+  let short := addr_prefix ++ [49] ++ map enc5 g31 ++ map enc5 (checksum bech32_const addr_prefix g31) in
+  upper <> canon /\ parse_address upper = Some zero_address /\
+  m <> canon /\ parse_address m = Some zero_address /\
+  short <> canon /\ parse_address short = Some zero_address.
+Proof. exact address_second_text_forms. Qed.
+
+(* byte strings (data, publicKey, signature) as base64 in a JSON string *)
+Theorem C18_json_data_roundtrip : forall b, Forall byte b -> parse_data (BJStr (print_data b)) = Some b.
+Proof. exact data_roundtrip. Qed.
+(* ... second text forms: line breaks anywhere, the unused low bits of the last character, a JSON array of numbers,
+   null / [] for the empty string *)
+Theorem C18_json_data_second_text_forms :
+  (forall s1 s2, b64_dec (s1 ++ 10 :: s2) = b64_dec (s1 ++ s2) /\ b64_dec (s1 ++ 13 :: s2) = b64_dec (s1 ++ s2)) /\
+  (b64_dec [81; 81; 61; 61] = Some [65] /\ b64_dec [81; 82; 61; 61] = Some [65] /\
+   b64_dec [81; 85; 73; 61] = Some [65; 66] /\ b64_dec [81; 85; 74; 61] = Some [65; 66]) /\
+  (forall b, Forall byte b -> parse_data (BJArr (map print_dec b)) = Some b) /\
+  (parse_data BJNull = Some [] /\ parse_data (BJStr []) = Some [] /\ parse_data (BJArr []) = Some []).
+Proof.
+  split; [exact data_line_breaks_ignored|]. split; [exact data_unused_bits_ignored|].
+  split; [exact data_as_array | exact data_null_and_empty].
+Qed.
+
 (* non-vacuity *)
+Example C18_json_text_example :
+  print_amount (-1200) = [45; 49; 50; 48; 48] /\ parse_amount [43; 48; 48; 55] = 7 /\ parse_amount [49; 101; 51] = 0 /\
+  parse_u64_field [49; 46; 48] = None /\ print_data [65; 66] = [81; 85; 73; 61] /\
+  print_address zero_address = [122; 49; 113; 113; 113; 113; 113; 113; 113; 113; 113; 113; 113; 113; 113; 113; 113; 113; 113; 113; 113;
+                                113; 113; 113; 113; 113; 113; 113; 113; 113; 113; 113; 113; 113; 115; 103; 103; 118; 50; 102].
+Proof. vm_compute. repeat split; reflexivity. Qed.
 Example C18_rpc_example :
   handle_session TStream [DocBatch [EObj (mkMsg (IdVal 1) (MName SfxNone DRun) true false false); ENull;
                                     EObj (mkMsg IdAbsent (MName SfxNone DRun) false false false);
